@@ -146,6 +146,22 @@ def crate_source(defs, queries, values):
     lines.append("        }")
     lines.append("        return;")
     lines.append("    }")
+    lines.append("    if let Ok(dir) = std::env::var(\"CORPUS_EXPORT_ALL\") {")
+    lines.append("        // every derived query type exported (with dependencies) into ONE directory, in a given order, from n threads")
+    lines.append("        let mut fs: Vec<(usize, fn(&str) -> String)> = vec![")
+    for i, t in enumerate(queries):
+        if t[0] == "named":
+            lines.append("            (%d, xa::<%s>)," % (i, C.rust_ty(t)))
+            owner[len(lines)] = ("q", i)
+    lines.append("        ];")
+    lines.append("        let order: u64 = std::env::var(\"CORPUS_ORDER\").ok().and_then(|s| s.parse().ok()).unwrap_or(0);")
+    lines.append("        let threads: usize = std::env::var(\"CORPUS_THREADS\").ok().and_then(|s| s.parse().ok()).unwrap_or(1);")
+    lines.append("        if order == 1 { fs.reverse(); } else if order > 1 { let mut st = order; for i in (1..fs.len()).rev() { st = st.wrapping_mul(6364136223846793005).wrapping_add(1442695040888963407); let j = (st >> 33) as usize % (i + 1); fs.swap(i, j); } }")
+    lines.append("        let chunks: Vec<Vec<(usize, fn(&str) -> String)>> = (0..threads).map(|k| fs.iter().cloned().skip(k).step_by(threads).collect()).collect();")
+    lines.append("        let handles: Vec<_> = chunks.into_iter().map(|c| { let dir = dir.clone(); std::thread::spawn(move || c.into_iter().map(|(i, f)| format!(\"X\\u{2}{}\\u{2}{}\", i, f(&dir))).collect::<Vec<_>>()) }).collect();")
+    lines.append("        for h in handles { for l in h.join().unwrap() { println!(\"{}\", l); } }")
+    lines.append("        return;")
+    lines.append("    }")
     lines.append("    if let Ok(dir) = std::env::var(\"CORPUS_EXPORT\") {")
     for i, t in enumerate(queries):
         lines.append("        x::<%s>(%d, &dir);" % (C.rust_ty(t), i))
@@ -256,6 +272,32 @@ def run_export(exe, out_dir):
         if parts[0] == "X":
             st[int(parts[1])] = parts[2]
     return st
+
+
+def run_export_all(exe, out_dir, order=0, threads=1):
+    """export_all_to(out_dir) for every derived query type, in the given order from the given number of threads;
+    returns ({index: status}, {relative path: content})"""
+    import shutil
+    shutil.rmtree(out_dir, ignore_errors=True)
+    os.makedirs(out_dir, exist_ok=True)
+    os.makedirs(RUN_CWD, exist_ok=True)
+    p = vlib.run([exe], cwd=RUN_CWD, env={"CORPUS_EXPORT_ALL": out_dir, "CORPUS_ORDER": str(order), "CORPUS_THREADS": str(threads)}, timeout=1800)
+    if p.returncode != 0:
+        raise vlib.HarnessError("corpus binary (export-all mode) failed: %s" % p.stderr[-2000:])
+    st = {}
+    for line in p.stdout.split("\n"):
+        parts = line.split("\x02")
+        if parts[0] == "X":
+            st[int(parts[1])] = parts[2]
+    tree = {}
+    base = os.path.dirname(os.path.normpath(out_dir))
+    for root in (out_dir, os.path.join(base, "up")):
+        for dp, _, fns in os.walk(root):
+            for fn in fns:
+                fp = os.path.join(dp, fn)
+                tree[os.path.relpath(fp, base)] = open(fp, encoding="utf-8", errors="replace").read()
+    shutil.rmtree(os.path.join(base, "up"), ignore_errors=True)
+    return st, tree
 
 
 def canon_real(field, s):
